@@ -376,7 +376,7 @@ example : (preserveRedirs (performRedirs worldOracle (stdWorld false) stdTable [
 
 /-- the three kinds of thing a path can name in the table -/
 inductive Target where
-  | missing | regular | directory
+  | missing | regular | directory | device
   deriving DecidableEq, Repr
 
 def targetWorld (k : Target) (noclobber : Bool) : World :=
@@ -384,7 +384,8 @@ def targetWorld (k : Target) (noclobber : Bool) : World :=
     (match k with
      | .missing => ⟨false, .reg, [], false⟩
      | .regular => ⟨true, .reg, [1, 2], false⟩
-     | .directory => ⟨true, .dir, [], false⟩)
+     | .directory => ⟨true, .dir, [], false⟩
+     | .device => ⟨true, .tty, [7], false⟩)
 
 /-- one row of the table: what `>`/`>|` on path 3 do in that world -/
 def noclobberRow (k : Target) (noclobber : Bool) (clobberOp : Bool) : Bool :=
@@ -396,6 +397,10 @@ def noclobberRow (k : Target) (noclobber : Bool) (clobberOp : Bool) : Bool :=
     -- no descriptor is left
     (match res.r with | .error (.openFile .EISDIR) => true | _ => false) &&
       res.t.openFds == stdTable.openFds
+  else if k == .device then
+    -- an existing file that is not regular goes through, noclobber or not (`open_file_noclobber`'s
+    -- second, plain open + `fstat`), and is not truncated
+    (match res.r with | .ok (.owned 3) => true | _ => false) && (fileAt res.w 3).content == [7]
   else if refused then
     -- fails with EEXIST, the file keeps its content, no descriptor is left
     (match res.r with | .error (.openFile .EEXIST) => true | _ => false) &&
@@ -406,9 +411,8 @@ def noclobberRow (k : Target) (noclobber : Bool) (clobberOp : Bool) : Bool :=
       (fileAt res.w 3).present && (fileAt res.w 3).content == []
 
 /-- ★ `>` under noclobber on an existing regular file fails without truncating it; `>|` and a missing
-    file go through; a directory is refused with EISDIR either way (all 3 × 2 × 2 rows).  The branch
-    of `open_file_noclobber` that lets a non-regular file through is covered for every oracle by
-    `undo_restores`; the virtual system has no other non-regular file an `open` returns from. -/
+    file go through; an existing non-regular file (a terminal device) goes through under noclobber
+    too; a directory is refused with EISDIR either way (all 4 × 2 × 2 rows) -/
 theorem noclobber_table : ∀ (k : Target) (noclobber clobberOp : Bool), noclobberRow k noclobber clobberOp = true := by
   intro k nc c
   cases k <;> cases nc <;> cases c <;> decide
